@@ -55,6 +55,25 @@ def getStateH : AnyH → String
   | .h32 _ s => hexOfBytes ((getState32 s).1.flatMap fun x => toBeBytes x 4)
   | .h64 _ s => hexOfBytes ((getState64 s).1.flatMap fun x => toBeBytes x 8)
 
+/-- `blake inject <slot> <bits> <cv hex> <t0> <t1> <buffered hex>` (C17): a hasher whose chaining
+    value (8 big-endian words, the format of `getstate`), counter and buffered bytes are given — the
+    state a real instance was observed in through `verif_get_state` after streaming a long prefix. -/
+def injectH (bits : Nat) (cv buf : List (BitVec 8)) (t0 t1 : Nat) : Option AnyH :=
+  let bb := fun (b : Nat) => ({ buf := CC.Buffer.splice (List.replicate b 0) 0 buf, pos := buf.length } : CC.Buffer.BB)
+  if bits = 224 ∨ bits = 256 then
+    if cv.length = 32 ∧ buf.length < 64 ∧ t0 < 2 ^ 32 ∧ t1 < 2 ^ 32 then
+      let wd := fun i => ofBeBytes 32 ((cv.drop (4 * i)).take 4)
+      some (.h32 bits { compressor := { h0 := pack32 (wd 0) (wd 1) (wd 2) (wd 3), h1 := pack32 (wd 4) (wd 5) (wd 6) (wd 7) },
+                        buffer := bb 64, t := (BitVec.ofNat 32 t0, BitVec.ofNat 32 t1) })
+    else none
+  else if bits = 384 ∨ bits = 512 then
+    if cv.length = 64 ∧ buf.length < 128 ∧ t0 < 2 ^ 64 ∧ t1 < 2 ^ 64 then
+      let wd := fun i => ofBeBytes 64 ((cv.drop (8 * i)).take 8)
+      some (.h64 bits { compressor := { h0 := pack64x4 (wd 0) (wd 1) (wd 2) (wd 3), h1 := pack64x4 (wd 4) (wd 5) (wd 6) (wd 7) },
+                        buffer := bb 128, t := (BitVec.ofNat 64 t0, BitVec.ofNat 64 t1) })
+    else none
+  else none
+
 /-- `blake putblock 256 …`: chaining value given as 8 big-endian words -/
 def putBlock32 (M : Mach) (h block : List (BitVec 8)) (t0 t1 : Nat) : String :=
   let wd := fun i => ofBeBytes 32 ((h.drop (4 * i)).take 4)
@@ -125,6 +144,13 @@ def step (cfg : Cfg) (st : St) : List String → St × String
         | some h' => ({ st with hs := setSlot st.hs s h' }, "ok")
         | none => (st, "bad-op")
     | _, _ => (st, "bad-op")
+  | ["blake", "inject", slot, bits, cv, t0, t1, buf] =>
+    match slot.toNat?, bits.toNat?, bytesOfHex cv, t0.toNat?, t1.toNat?, bytesOfHex buf with
+    | some s, some b, some cv, some t0, some t1, some buf =>
+      match injectH b cv buf t0 t1 with
+      | some h => ({ st with hs := setSlot st.hs s h }, "ok")
+      | none => (st, "bad-op")
+    | _, _, _, _, _, _ => (st, "bad-op")
   | ["blake", "getctr", slot] => withSlot st slot fun _ h => (st, getCtrH h)
   | ["blake", "getstate", slot] => withSlot st slot fun _ h => (st, getStateH h)
   | ["blake", "putblock", ws, h, block, t0, t1] =>
